@@ -100,9 +100,24 @@ def wsize : WShape → Rat
   | .capsule a b r => vmag (q3 a) + vmag (q3 b) + rabs (q r)
   | .triangle a b c => vmag (q3 a) + vmag (q3 b) + vmag (q3 c)
   | .segment a b => vmag (q3 a) + vmag (q3 b)
+  | .composite _ s => rabs (q s)
 def wkind : WShape → String
   | .ball _ => "ball" | .cuboid _ => "cuboid" | .halfspace _ => "halfspace"
   | .capsule .. => "capsule" | .triangle .. => "triangle" | .segment .. => "segment"
+  | .composite k _ => k
+def WShape.isComposite : WShape → Bool
+  | .composite .. => true
+  | _ => false
+def WShape.isHalfSpace : WShape → Bool
+  | .halfspace _ => true
+  | _ => false
+/-- the two argument orders of this pair are served by ONE canonical function through a mirrored wrapper
+(`*_ball_convex_polyhedron`, `*_ball_point_query`, `*_support_map_halfspace`, `*_shape_composite_shape`): on identical
+data the swapped answer must be the flipped answer exactly.  Ball/ball and composite/composite are self-paired
+functions evaluated on different data, and support-map pairs go through GJK from both sides. -/
+def mirroredPair (a b : WShape) : Bool :=
+  let special (s : WShape) := s.isBall || s.isHalfSpace || s.isComposite
+  (special a || special b) && !(a.isBall && b.isBall) && !(a.isComposite && b.isComposite)
 
 structure OCtx where
   /-- magnitude of the poses (rounding of world coordinates) -/
@@ -113,14 +128,22 @@ structure OCtx where
   G : Iso3 Rat
   pair : String
   concentric : Bool
+  /-- a composite (non-convex) shape is involved: closest pairs need not be unique -/
+  composite : Bool := false
+  /-- `pos2.inv_mul(pos1).inverse()` is bit-identical to `pos1.inv_mul(pos2)`: both argument orders are evaluated on
+  the same data, so the mirrored wrappers must agree exactly on every discrete verdict (ties included) -/
+  exact : Bool := false
+  /-- no ball / half-space involved: penetration depths come from GJK + EPA -/
+  epa : Bool := false
 
 def OCtx.tag (c : OCtx) : String := s!"pair={c.pair}" ++ (if c.concentric then " concentric" else "")
 /-- scalars: 1e-6 relative to the values and the size of the shapes -/
 def OCtx.scal (c : OCtx) (a b : Rat) : Bool := rabs (a - b) ≤ (1 / 1000000) * (1 + rabs a + rabs b + c.sz) + tol * c.S
 /-- witnesses: GJK stops at a relative gap of 4.7e-8 on the distance, which bounds the witness direction only to
 about `sqrt(2·4.7e-8) ≈ 3e-4` rad; tolerance `2e-3 · (size + |dist|)` plus rounding of world coordinates. -/
+def OCtx.wtol (c : OCtx) (d : Rat) : Rat := (2 / 1000) * (c.sz + rabs d) + (1 / 1000000) * (1 + c.S)
 def OCtx.wit (c : OCtx) (a b : V3 Rat) (d : Rat) : Bool :=
-  let t := (2 / 1000) * (c.sz + rabs d) + (1 / 1000000) * (1 + c.S)
+  let t := c.wtol d
   rabs (a.x - b.x) ≤ t && rabs (a.y - b.y) ≤ t && rabs (a.z - b.z) ≤ t
 
 def pOArgs (withPar : Bool) : P (WShape × Iso3 Float × WShape × Iso3 Float × Iso3 Float × Float) := do
@@ -131,33 +154,64 @@ def mkCtx (a : WShape) (m1 : Iso3 Float) (b : WShape) (m2 : Iso3 Float) (g : Iso
   let G := qiso3 g
   { S := vmag (q3 m1.t) + vmag (q3 m2.t) + vmag G.t + (vmag (q3 m1.t) + vmag (q3 m2.t)), sz := wsize a + wsize b,
     ball := a.isBall || b.isBall, G := G, pair := s!"{wkind a}/{wkind b}",
-    concentric := (q m1.t.x == q m2.t.x) && (q m1.t.y == q m2.t.y) && (q m1.t.z == q m2.t.z) }
+    concentric := (q m1.t.x == q m2.t.x) && (q m1.t.y == q m2.t.y) && (q m1.t.z == q m2.t.z),
+    composite := a.isComposite || b.isComposite,
+    epa := !(a.isBall || b.isBall || a.isHalfSpace || b.isHalfSpace) }
 
-/-- compare two world-frame contacts that should describe the same configuration (`b` already in `a`'s convention) -/
-def cmpContact (c : OCtx) (what : String) (pred : Rat) (a b : Option (Contact3 Rat)) : Option String :=
+/-- a result followed by `@ m1 m2` (distances of the two witnesses to their own shapes, from the point query) -/
+def splitAt (toks : List String) : List String × List String :=
+  (toks.takeWhile (· ≠ "@"), (toks.dropWhile (· ≠ "@")).drop 1)
+/-- both witnesses lie on / in their own shape -/
+def membOK (c : OCtx) (what : String) (memb : List String) (d : Rat) : Option String :=
+  match memb with
+  | [] => none
+  | _ => match run (do let a ← pfo; let b ← pfo; pure (a, b)) memb with
+    | none => some s!"{what}-membership-unparsable"
+    | some (m1, m2) =>
+      if !(FloatIO.isFinite m1 && FloatIO.isFinite m2) then some s!"{what}-membership-nonfinite {c.tag}"
+      else if q m1 > c.wtol d then some s!"{what}-witness1-not-on-its-shape {c.tag}{if d == 0 then " exactly-touching" else ""} off-by={m1}"
+      else if q m2 > c.wtol d then some s!"{what}-witness2-not-on-its-shape {c.tag}{if d == 0 then " exactly-touching" else ""} off-by={m2}"
+      else none
+
+/-- the record EPA returns when it gives up: zero normals and zero distance -/
+def isNull (x : Contact3 Rat) : Bool := x.normal1.normSq == 0 && x.dist == 0
+
+/-- compare two world-frame contacts that should describe the same configuration (`b` already in `a`'s convention);
+`exact`: both computed from bit-identical relative poses -/
+def cmpContact (c : OCtx) (what : String) (pred : Rat) (exact : Bool) (a b : Option (Contact3 Rat)) : Option String :=
   match a, b with
   | none, none => none
   | some x, none | none, some x =>
-    if c.scal x.dist pred then none else some s!"{what}-none-vs-some {c.tag} dist={x.dist.toF} prediction={pred.toF}"
+    if exact then some s!"{what}-none-vs-some-on-identical-data {c.tag} dist={x.dist.toF} prediction={pred.toF}"
+    else if c.scal x.dist pred then none else some s!"{what}-none-vs-some {c.tag} dist={x.dist.toF} prediction={pred.toF}"
   | some x, some y =>
-    if !c.scal x.dist y.dist then
+    if isNull x || isNull y then some s!"{what}-null-contact {c.tag} (zero normals, dist 0: EPA gave up)"
+    else if !c.scal x.dist y.dist &&
+        !(c.epa && x.dist ≤ (1 / 1000000) * (1 + c.sz) && y.dist ≤ (1 / 1000000) * (1 + c.sz) && rabs (x.dist - y.dist) ≤ c.wtol x.dist) then
+      -- (penetration depths from EPA are only reproducible to the witness tolerance: its polytope expansion stops at
+      --  a relative tolerance of about 1e-4 on round shapes)
       let t : Rat := (1 / 1000000) * (1 + c.sz)
       some s!"{what}-dist {c.tag}{if x.dist ≤ t && y.dist ≤ t then " penetrating" else ""} a={x.dist.toF} b={y.dist.toF}"
-    else if x.dist ≤ 0 || y.dist ≤ 0 then none   -- penetration: normal/witnesses may tie; the depth is the invariant
+    else if x.dist ≤ (1 / 1000000) * (1 + c.sz) || y.dist ≤ (1 / 1000000) * (1 + c.sz) then none
+      -- penetration / touching: normal and witnesses may tie (flat contacts); the signed distance is the invariant
+    else if c.composite then none                 -- non-convex: the closest pair need not be unique
     else if !c.wit (x.point2.sub x.point1) (y.point2.sub y.point1) x.dist then some s!"{what}-separation-vector {c.tag}"
     else if c.ball && !(c.wit x.point1 y.point1 x.dist && c.wit x.point2 y.point2 x.dist) then some s!"{what}-witnesses {c.tag}"
     else none
 
-def cmpCP (c : OCtx) (what : String) (margin dist : Rat) (a b : ClosestPoints3 Rat) : Option String :=
+def cmpCP (c : OCtx) (what : String) (margin dist : Rat) (exact : Bool) (a b : ClosestPoints3 Rat) : Option String :=
   let nearBoundary := c.scal dist 0 || c.scal dist margin
   match a, b with
   | .intersecting, .intersecting => none
   | .disjoint, .disjoint => none
   | .withinMargin p1 p2, .withinMargin r1 r2 =>
-    if !c.wit (p2.sub p1) (r2.sub r1) dist then some s!"{what}-separation-vector {c.tag}"
+    if c.composite || c.scal dist 0 then none   -- non-convex or touching: the closest pair need not be unique
+    else if !c.wit (p2.sub p1) (r2.sub r1) dist then some s!"{what}-separation-vector {c.tag}"
     else if c.ball && !(c.wit p1 r1 dist && c.wit p2 r2 dist) then some s!"{what}-witnesses {c.tag}"
     else none
-  | _, _ => if nearBoundary then none else some s!"{what}-variant {c.tag} dist={dist.toF} margin={margin.toF}"
+  | _, _ =>
+    if exact then some s!"{what}-variant-on-identical-data {c.tag} dist={dist.toF} margin={margin.toF}"
+    else if nearBoundary then none else some s!"{what}-variant {c.tag} dist={dist.toF} margin={margin.toF}"
 
 def contactMapG (G : Iso3 Rat) (c : Contact3 Rat) : Contact3 Rat := c.transformBy G G
 
@@ -173,18 +227,22 @@ def oracleO (fn : String) (args out : List String) : String :=
   match run (pOArgs withPar) args with
   | none => "skip bad-args"
   | some (a, m1, b, m2, g, par) =>
+    let pairTag := s!"pair={wkind a}/{wkind b}"
     match out with
-    | "panic" :: _ => "fail panic"
+    | "panic" :: _ => s!"fail panic {pairTag}"
     | _ =>
     match splitSemi out with
-    | [A, B, C, aux] =>
-      let c := mkCtx a m1 b m2 g
-      if !(unitQ (qiso3 m1) && unitQ (qiso3 m2) && unitQ c.G) then "skip non-unit-rotation" else
+    | [A0, B0, C0, D, aux] =>
+      let (A, mA) := splitAt A0; let (B, mB) := splitAt B0; let (C, mC) := splitAt C0
+      let c0 := mkCtx a m1 b m2 g
+      if !(unitQ (qiso3 m1) && unitQ (qiso3 m2) && unitQ c0.G) then "skip non-unit-rotation" else
       if unsupported A && unsupported B && unsupported C then "skip unsupported-pair" else
-      if unsupported A || unsupported B || unsupported C then s!"fail support-differs-between-orders {c.tag}" else
-      match run (do let d ← pfo; let e ← pfo; pure (d, e)) aux with
+      if unsupported A || unsupported B || unsupported C then s!"fail support-differs-between-orders {c0.tag}" else
+      if A ≠ D then s!"fail free-function-differs-from-dispatcher-form {c0.tag}" else
+      match run (do let d ← pfo; let e ← pfo; let r ← pbool; pure (d, e, r)) aux with
       | none => "fail unparsable-output"
-      | some (dist, depth) =>
+      | some (dist, depth, rt) =>
+        let c := { c0 with exact := rt && mirroredPair a b }
         let D := q dist
         match fn with
         | "o_distance" =>
@@ -198,6 +256,7 @@ def oracleO (fn : String) (args out : List String) : String :=
           match run pbool A, run pbool B, run pbool C with
           | some x, some y, some z =>
             if x == y && x == z then "pass"
+            else if c.exact && x != y then s!"fail verdict-differs-on-identical-data {c.tag} a={x} b={y} dist={dist}"
             else
               let t : Rat := (1 / 1000000) * (1 + c.sz) + tol * c.S
               let touching := FloatIO.isFinite dist && D ≤ t && !(FloatIO.isFinite depth && q depth < -t)
@@ -208,17 +267,146 @@ def oracleO (fn : String) (args out : List String) : String :=
           | some x, some y, some z =>
             if !(x.all finiteContact && y.all finiteContact && z.all finiteContact) then "fail nonfinite-output" else
             let X := x.map qcontact; let Y := y.map qcontact; let Z := z.map qcontact
-            firstSome [cmpContact c "swap" (q par) X (Y.map Contact3.flipped),
-                       cmpContact c "frame" (q par) (X.map (contactMapG c.G)) Z]
+            let dA := (X.map (·.dist)).getD 0
+            firstSome [if X.any isNull || Y.any isNull || Z.any isNull then some s!"null-contact {c.tag} (zero normals, dist 0: EPA gave up)" else none,
+                       membOK c "a" mA dA, membOK c "swapped" mB ((Y.map (·.dist)).getD 0), membOK c "frame" mC ((Z.map (·.dist)).getD 0),
+                       cmpContact c "swap" (q par) c.exact X (Y.map Contact3.flipped),
+                       cmpContact c "frame" (q par) false (X.map (contactMapG c.G)) Z]
           | _, _, _ => "fail unparsable-output"
         | _ =>
           match run pcpOut A, run pcpOut B, run pcpOut C with
           | some (some x), some (some y), some (some z) =>
             if !(finiteCP x && finiteCP y && finiteCP z) then "fail nonfinite-output" else
             if !FloatIO.isFinite dist then "skip no-distance" else
-            firstSome [cmpCP c "swap" (q par) D (qcp x) (qcp y).flipped,
-                       cmpCP c "frame" (q par) D ((qcp x).transformBy c.G c.G) (qcp z)]
+            firstSome [membOK c "a" mA D, membOK c "swapped" mB D, membOK c "frame" mC D,
+                       cmpCP c "swap" (q par) D c.exact (qcp x) (qcp y).flipped,
+                       cmpCP c "frame" (q par) D false ((qcp x).transformBy c.G c.G) (qcp z)]
           | _, _, _ => "fail unparsable-output-or-panic"
+    | _ => "fail unparsable-output"
+
+/-! ### oracle-only shape casts: A = (1,2), B = (2,1), C = (g·1, g·2), D = dispatcher form -/
+structure Hit where
+  toi : Rat
+  w1 : V3 Rat
+  w2 : V3 Rat
+  n1 : V3 Rat
+  n2 : V3 Rat
+  status : Nat
+  m1 : Rat
+  m2 : Rat
+
+/-- `none` | `hit toi w1 w2 n1 n2 status @ m1 m2` ; outer `none` = unparsable / non-finite -/
+def phit (toks : List String) : Option (Option Hit) :=
+  match toks with
+  | ["none"] => some none
+  | "hit" :: rest =>
+    match run (do let t ← pfo; let a ← pov3; let b ← pov3; let c ← pov3; let d ← pov3; let st ← pnat
+                  let _ ← tok; let m1 ← pfo; let m2 ← pfo; pure (t, a, b, c, d, st, m1, m2)) rest with
+    | some (t, a, b, c, d, st, m1, m2) =>
+      if FloatIO.isFinite t && finite3 a && finite3 b && finite3 c && finite3 d && FloatIO.isFinite m1 && FloatIO.isFinite m2
+      then some (some ⟨q t, q3 a, q3 b, q3 c, q3 d, st, q m1, q m2⟩) else none
+    | none => none
+  | _ => none
+
+structure CastCtx where
+  c : OCtx
+  target : Rat
+  maxtoi : Rat
+  /-- the motion starts with the shapes (numerically) at the target distance or closer: whether an impact at time 0
+  is reported is then decided by rounding -/
+  startsInContact : Bool := false
+  /-- size of the scene at the start (shapes + poses) -/
+  reach : Rat := 0
+  /-- |vel2 - vel1| (upper bound) -/
+  speed : Rat
+
+/-- tolerance on positions at the time of impact: witness tolerance plus the travel during the time tolerance -/
+def CastCtx.ptol (k : CastCtx) (toi : Rat) : Rat := k.c.wtol k.target + (1 / 100000) * k.speed * (1 + toi)
+
+/-- checks on one hit given its world-frame data at the time of impact (`w_i` = pose_i · witness_i + vel_i · toi,
+`n_i` = pose_i · normal_i) -/
+def hitSelfW (k : CastCtx) (what : String) (h : Hit) (w1 w2 n1 n2 : V3 Rat) : Option String :=
+  let tag := k.c.tag
+  if h.toi < 0 then some s!"{what}-negative-toi {tag}"
+  else if h.toi > k.maxtoi * (1 + tol) + tol then some s!"{what}-toi-beyond-max {tag} toi={h.toi.toF}"
+  else if h.status != 1 then none     -- penetrating / failed / out-of-iterations: only the cross checks apply
+  else
+    let t := k.ptol h.toi
+    -- separation of the witnesses along the contact normal (flat contacts leave the lateral position free)
+    let gap := (w2.sub w1).dot n1
+    if !close n1.normSq 1 1000 then some s!"{what}-normal1-not-unit {tag}"
+    else if !closeV n2 n1.neg 1000 then some s!"{what}-normal2-not-minus-normal1-in-world {tag}"
+    else if h.m1 > t then some s!"{what}-witness1-not-on-its-shape-surface {tag} off-by={h.m1.toF} target={k.target.toF}"
+    else if h.m2 > t then some s!"{what}-witness2-not-on-its-shape-surface {tag} off-by={h.m2.toF} target={k.target.toF}"
+    else if rabs (gap - k.target) > t + t then some s!"{what}-witness-gap-along-normal-at-impact {tag} gap={gap.toF} target={k.target.toF}"
+    else none
+
+/-- `P1,v1` pose/velocity of the shape carrying witness1, `P2,v2` of the one carrying witness2 -/
+def hitSelf (k : CastCtx) (what : String) (h : Hit) (P1 : Iso3 Rat) (v1 : V3 Rat) (P2 : Iso3 Rat) (v2 : V3 Rat) : Option String :=
+  hitSelfW k what h ((P1.act h.w1).add (v1.smul h.toi)) ((P2.act h.w2).add (v2.smul h.toi)) (P1.rot h.n1) (P2.rot h.n2)
+
+/-- two hits that should describe the same cast; `sameFrames`: witness i of `a` and of `b` are in the same local frame -/
+def hitCross (k : CastCtx) (what : String) (stop : Bool) (a b : Option Hit) : Option String :=
+  let tag := k.c.tag
+  match a, b with
+  | none, none => none
+  | some x, none | none, some x =>
+    -- a hit may be dropped at the boundaries: toi at max_toi, or (stop_at_penetration = false) a start in contact
+    if k.c.scal (x.toi * k.speed) (k.maxtoi * k.speed) || (!stop && x.toi * k.speed ≤ (1 / 1000) * (1 + k.c.sz)) || x.status != 1
+       || (k.startsInContact && x.toi == 0)
+       || x.toi * k.speed > 1000000 * (1 + k.reach)   -- motion numerically parallel to the obstacle: "never" vs "after 1e6 sizes"
+    then none
+    else some s!"{what}-hit-vs-none {tag} toi={x.toi.toF}"
+  | some x, some y =>
+    if k.startsInContact && (x.toi == 0 || y.toi == 0) then none
+    else if !k.c.scal (x.toi * k.speed) (y.toi * k.speed) then some s!"{what}-toi {tag} a={x.toi.toF} b={y.toi.toF}"
+    else if x.status != y.status then
+      (if x.toi * k.speed ≤ (1 / 1000) * (1 + k.c.sz) then none else some s!"{what}-status {tag} a={x.status} b={y.status}")
+    else if x.status != 1 then none
+    else if k.c.ball && !k.c.composite && !(k.c.wit x.w1 y.w1 k.target && k.c.wit x.w2 y.w2 k.target) then
+      some s!"{what}-witnesses {tag}"   -- (a composite can be hit on two parts at the same time)
+    else none
+
+def Hit.swapped (h : Hit) : Hit := ⟨h.toi, h.w2, h.w1, h.n2, h.n1, h.status, h.m2, h.m1⟩
+
+def pCastArgs : P (WShape × Iso3 Float × V3 Float × WShape × Iso3 Float × V3 Float × Iso3 Float × Float × Bool × Float) := do
+  let a ← pshape; let m1 ← piso3; let v1 ← pv3; let b ← pshape; let m2 ← piso3; let v2 ← pv3; let g ← piso3
+  let target ← pf; let stop ← pbool; let maxtoi ← pf
+  pure (a, m1, v1, b, m2, v2, g, target, stop, maxtoi)
+
+def oracleCast (args out : List String) : String :=
+  match run pCastArgs args with
+  | none => "skip bad-args"
+  | some (a, m1, v1, b, m2, v2, g, target, stop, maxtoi) =>
+    let pairTag := s!"pair={wkind a}/{wkind b}"
+    match out with
+    | "panic" :: _ => s!"fail panic {pairTag}"
+    | _ =>
+    match splitSemi out with
+    | [A, B, C, D, aux] =>
+      let c := mkCtx a m1 b m2 g
+      let P1 := qiso3 m1; let P2 := qiso3 m2; let G := c.G
+      let d0 := (run pfo aux).getD (0.0 / 0.0)
+      let inContact := FloatIO.isFinite d0 && q d0 ≤ q target + (1 / 1000000) * (1 + c.sz) + tol * c.S
+      if !(unitQ P1 && unitQ P2 && unitQ G) then "skip non-unit-rotation" else
+      if unsupported A && unsupported B && unsupported C then "skip unsupported-pair" else
+      if unsupported A || unsupported B || unsupported C then s!"fail support-differs-between-orders {c.tag}" else
+      if A ≠ D then s!"fail free-function-differs-from-dispatcher-form {c.tag}" else
+      if q target < 0 then "skip negative-target" else
+      match phit A, phit B, phit C with
+      | some x, some y, some z =>
+        let V1 := q3 v1; let V2 := q3 v2
+        let vr := V2.sub V1
+        let mt : Rat := if FloatIO.isFinite maxtoi then q maxtoi else 0
+        let k : CastCtx := { c := { c with S := c.S + (vmag V1 + vmag V2) * (((x.map (·.toi)).getD 0) + 1) }, target := q target,
+                             maxtoi := mt, speed := vmag vr, startsInContact := inContact,
+                             reach := c.sz + vmag P1.t + vmag P2.t }
+        firstSome [x.bind fun h => hitSelf k "a" h P1 V1 P2 V2,
+                   y.bind fun h => hitSelf k "swapped" h P2 V2 P1 V1,
+                   z.bind fun h => hitSelf k "frame" h (G.mul P1) (G.rot V1) (G.mul P2) (G.rot V2),
+                   hitCross k "swap" stop x (y.map Hit.swapped),
+                   hitCross k "frame" stop x z]
+      | _, _, _ => "fail unparsable-or-nonfinite-output"
     | _ => "fail unparsable-output"
 
 def oHandler (fn : String) : Handler :=
@@ -271,28 +459,38 @@ def pcpOut2 : P (Option (ClosestPoints3 Rat)) := do
   | _ => failure
 def cpMapG2 (G : Iso2 Rat) (a : V2 Float) : V3 Rat := embed (G.act (q2 a))
 
+def mirroredPair2 (a b : WShape2) : Bool :=
+  let special (s : WShape2) := s.isBall || s.isHalfSpace || s.isComposite
+  (special a || special b) && !(a.isBall && b.isBall) && !(a.isComposite && b.isComposite)
+
 /-- oracle-only 2-D dispatcher runs; witnesses are embedded in the plane `z = 0` and compared by the 3-D code -/
 def oracleO2 (fn : String) (args out : List String) : String :=
   let withPar := fn = "o2_contact" || fn = "o2_cp"
   match run (pOArgs2 withPar) args with
   | none => "skip bad-args"
   | some (a, m1, b, m2, g, par) =>
+    let pairTag := s!"pair={a.kind}/{b.kind}"
     match out with
-    | "panic" :: _ => "fail panic"
+    | "panic" :: _ => s!"fail panic {pairTag}"
     | _ =>
     match splitSemi out with
-    | [A, B, C, aux] =>
+    | [A0, B0, C0, D, aux] =>
+      let (A, mA) := splitAt A0; let (B, mB) := splitAt B0; let (C, mC) := splitAt C0
       let G := qiso2 g
-      let c : OCtx :=
+      let c0 : OCtx :=
         { S := 2 * (vmag2 (q2 m1.t) + vmag2 (q2 m2.t)) + vmag2 G.t, sz := a.size + b.size, ball := a.isBall || b.isBall,
           G := Iso3.identity, pair := s!"{a.kind}/{b.kind}",
-          concentric := (q m1.t.x == q m2.t.x) && (q m1.t.y == q m2.t.y) }
+          concentric := (q m1.t.x == q m2.t.x) && (q m1.t.y == q m2.t.y),
+          composite := a.isComposite || b.isComposite,
+          epa := !(a.isBall || b.isBall || a.isHalfSpace || b.isHalfSpace) }
       if !(unitC (qiso2 m1) && unitC (qiso2 m2) && unitC G) then "skip non-unit-rotation" else
       if unsupported A && unsupported B && unsupported C then "skip unsupported-pair" else
-      if unsupported A || unsupported B || unsupported C then s!"fail support-differs-between-orders {c.tag}" else
-      match run (do let d ← pfo; let e ← pfo; pure (d, e)) aux with
+      if unsupported A || unsupported B || unsupported C then s!"fail support-differs-between-orders {c0.tag}" else
+      if A ≠ D then s!"fail free-function-differs-from-dispatcher-form {c0.tag}" else
+      match run (do let d ← pfo; let e ← pfo; let r ← pbool; pure (d, e, r)) aux with
       | none => "fail unparsable-output"
-      | some (dist, depth) =>
+      | some (dist, depth, rt) =>
+        let c := { c0 with exact := rt && mirroredPair2 a b }
         let D := q dist
         match fn with
         | "o2_distance" =>
@@ -306,6 +504,7 @@ def oracleO2 (fn : String) (args out : List String) : String :=
           match run pbool A, run pbool B, run pbool C with
           | some x, some y, some z =>
             if x == y && x == z then "pass"
+            else if c.exact && x != y then s!"fail verdict-differs-on-identical-data {c.tag} a={x} b={y} dist={dist}"
             else
               let t : Rat := (1 / 1000000) * (1 + c.sz) + tol * c.S
               let touching := FloatIO.isFinite dist && D ≤ t && !(FloatIO.isFinite depth && q depth < -t)
@@ -315,12 +514,15 @@ def oracleO2 (fn : String) (args out : List String) : String :=
           match run pcontactOut2 A, run pcontactOut2 B, run pcontactOut2 C with
           | some x, some y, some z =>
             if !(x.all finiteContact2 && y.all finiteContact2 && z.all finiteContact2) then "fail nonfinite-output" else
-            let X := x.map qcontact2; let Y := y.map qcontact2; let Z := z.map qcontact2
-            firstSome [cmpContact c "swap" (q par) (X.map embedC) (Y.map fun k => embedC k.flipped),
-                       cmpContact c "frame" (q par) (X.map fun k => embedC (k.transformBy G G)) (Z.map embedC)]
+            let X := (x.map qcontact2).map embedC; let Y := (y.map qcontact2).map embedC; let Z := (z.map qcontact2).map embedC
+            let XG := (x.map qcontact2).map fun k => embedC (k.transformBy G G)
+            firstSome [if X.any isNull || Y.any isNull || Z.any isNull then some s!"null-contact {c.tag} (zero normals, dist 0: EPA gave up)" else none,
+                       membOK c "a" mA ((X.map (·.dist)).getD 0), membOK c "swapped" mB ((Y.map (·.dist)).getD 0),
+                       membOK c "frame" mC ((Z.map (·.dist)).getD 0),
+                       cmpContact c "swap" (q par) c.exact X (Y.map Contact3.flipped),
+                       cmpContact c "frame" (q par) false XG Z]
           | _, _, _ => "fail unparsable-output"
         | _ =>
-          -- closest points: A mapped by g needs the raw 2-D points
           let mapG : List String → Option (ClosestPoints3 Rat) := fun toks =>
             match toks with
             | ["intersecting"] => some .intersecting
@@ -331,8 +533,65 @@ def oracleO2 (fn : String) (args out : List String) : String :=
           match run pcpOut2 A, run pcpOut2 B, run pcpOut2 C, mapG A with
           | some (some x), some (some y), some (some z), some xg =>
             if !FloatIO.isFinite dist then "skip no-distance" else
-            firstSome [cmpCP c "swap" (q par) D x y.flipped, cmpCP c "frame" (q par) D xg z]
+            firstSome [membOK c "a" mA D, membOK c "swapped" mB D, membOK c "frame" mC D,
+                       cmpCP c "swap" (q par) D c.exact x y.flipped, cmpCP c "frame" (q par) D false xg z]
           | _, _, _, _ => "fail unparsable-output-or-panic"
+    | _ => "fail unparsable-output"
+
+/-- `none` | `hit toi w1(2) w2(2) n1(2) n2(2) status @ m1 m2`, embedded in `z = 0` -/
+def phit2 (toks : List String) : Option (Option Hit) :=
+  match toks with
+  | ["none"] => some none
+  | "hit" :: rest =>
+    match run (do let t ← pfo; let a ← pov2; let b ← pov2; let c ← pov2; let d ← pov2; let st ← pnat
+                  let _ ← tok; let m1 ← pfo; let m2 ← pfo; pure (t, a, b, c, d, st, m1, m2)) rest with
+    | some (t, a, b, c, d, st, m1, m2) =>
+      if FloatIO.isFinite t && finite2 a && finite2 b && finite2 c && finite2 d && FloatIO.isFinite m1 && FloatIO.isFinite m2
+      then some (some ⟨q t, embed (q2 a), embed (q2 b), embed (q2 c), embed (q2 d), st, q m1, q m2⟩) else none
+    | none => none
+  | _ => none
+
+def oracleCast2 (args out : List String) : String :=
+  match run (do let a ← pshape2; let m1 ← piso2; let v1 ← pv2; let b ← pshape2; let m2 ← piso2; let v2 ← pv2; let g ← piso2
+                let target ← pf; let stop ← pbool; let maxtoi ← pf
+                pure (a, m1, v1, b, m2, v2, g, target, stop, maxtoi)) args with
+  | none => "skip bad-args"
+  | some (a, m1, v1, b, m2, v2, g, target, stop, maxtoi) =>
+    let pairTag := s!"pair={a.kind}/{b.kind}"
+    match out with
+    | "panic" :: _ => s!"fail panic {pairTag}"
+    | _ =>
+    match splitSemi out with
+    | [A, B, C, D, aux] =>
+      let P1 := qiso2 m1; let P2 := qiso2 m2; let G := qiso2 g
+      let d0 := (run pfo aux).getD (0.0 / 0.0)
+      let U1 := q2 v1; let U2 := q2 v2
+      if !(unitC P1 && unitC P2 && unitC G) then "skip non-unit-rotation" else
+      if unsupported A && unsupported B && unsupported C then "skip unsupported-pair" else
+      if unsupported A || unsupported B || unsupported C then s!"fail support-differs-between-orders {pairTag}" else
+      if A ≠ D then s!"fail free-function-differs-from-dispatcher-form {pairTag}" else
+      if q target < 0 then "skip negative-target" else
+      match phit2 A, phit2 B, phit2 C with
+      | some x, some y, some z =>
+        let toi0 := (x.map (·.toi)).getD 0
+        let c : OCtx :=
+          { S := 2 * (vmag2 P1.t + vmag2 P2.t) + vmag2 G.t + (vmag2 U1 + vmag2 U2) * (toi0 + 1), sz := a.size + b.size,
+            ball := a.isBall || b.isBall, G := Iso3.identity, pair := s!"{a.kind}/{b.kind}", concentric := false,
+            composite := a.isComposite || b.isComposite }
+        let mt : Rat := if FloatIO.isFinite maxtoi then q maxtoi else 0
+        let inContact := FloatIO.isFinite d0 && q d0 ≤ q target + (1 / 1000000) * (1 + c.sz) + tol * c.S
+        let k : CastCtx := { c := c, target := q target, maxtoi := mt, speed := vmag2 (U2.sub U1), startsInContact := inContact,
+                             reach := c.sz + vmag2 P1.t + vmag2 P2.t }
+        let un (v : V3 Rat) : V2 Rat := ⟨v.x, v.y⟩
+        let self2 (what : String) (h : Hit) (Pa : Iso2 Rat) (va : V2 Rat) (Pb : Iso2 Rat) (vb : V2 Rat) : Option String :=
+          hitSelfW k what h (embed ((Pa.act (un h.w1)).add (va.smul h.toi))) (embed ((Pb.act (un h.w2)).add (vb.smul h.toi)))
+            (embed (Pa.rot (un h.n1))) (embed (Pb.rot (un h.n2)))
+        firstSome [x.bind fun h => self2 "a" h P1 U1 P2 U2,
+                   y.bind fun h => self2 "swapped" h P2 U2 P1 U1,
+                   z.bind fun h => self2 "frame" h (G.mul P1) (G.rot U1) (G.mul P2) (G.rot U2),
+                   hitCross k "swap" stop x (y.map Hit.swapped),
+                   hitCross k "frame" stop x z]
+      | _, _, _ => "fail unparsable-or-nonfinite-output"
     | _ => "fail unparsable-output"
 
 def handler (fn : String) : Option Handler :=
@@ -596,6 +855,7 @@ def handler (fn : String) : Option Handler :=
         | some (r, s, m) => withOut pbool o fun out => judgeIT (localPair (.ball r) s m) out
         | none => "skip bad-args" }
   | "o_contact" | "o_distance" | "o_it" | "o_cp" => some (oHandler fn)
+  | "o_cast" => some { model := fun _ => some "oracle-only", oracle := fun a o => oracleCast a o }
   /- ---------------- 2-D ---------------- -/
   | "iso2_inverse" => some {
       model := fun a => run (do let m ← piso2; pure (fiso2 m.inverse)) a
@@ -665,6 +925,7 @@ def handler (fn : String) : Option Handler :=
         | none => "skip bad-args" }
   | "o2_contact" | "o2_distance" | "o2_it" | "o2_cp" =>
       some { model := fun _ => some "oracle-only", oracle := fun a o => oracleO2 fn a o }
+  | "o2_cast" => some { model := fun _ => some "oracle-only", oracle := fun a o => oracleCast2 a o }
   | _ => none
 
 end C03
